@@ -349,6 +349,34 @@ def search(rep: C.Report, tier: str, broken):
                           {"object": label, "T": Th, "msq_over_T2": probes, "before": before, "after": after, "defining_integrals": want,
                            "other_evaluations_in_between": nscan, "rel_change": dh, "rel_diff_from_defining_integrals": dr},
                           finding_key="C20:history")
+    # the caller's spectrum arrays, built once and used for a scan over (scalar) temperatures: they must come back unmodified, and the value at
+    # a temperature must not depend on the temperatures asked before
+    for label, mk in (("Integrals()", lambda: _potential(integrals=Integrals())), ("shipped tables", lambda: _potential(default=True))):
+        try:
+            pa = mk()
+            mB_, dB_ = np.array([0.0, 0.3, 2.5, 90.0]), np.array([1.0, 3.0, 6.0, 2.0])
+            mF_, dF_ = np.array([0.0, 1.7, 400.0]), np.array([4.0, 12.0, 2.0])
+            keep = (mB_.copy(), mF_.copy(), dB_.copy(), dF_.copy())
+            seq = [2.0, 1.0, 0.5, 3.0, 2.0]
+            got = [float(pa.potentialOneLoopThermal((mB_, dB_, 0, 0), (mF_, dF_, 0, 0), T_)) for T_ in seq]
+            want = [T_ ** 4 / (2 * math.pi ** 2) * (sum(d * R.ref_J(m / T_ ** 2, True) for m, d in zip(keep[0], keep[2]))
+                                                   + sum(d * R.ref_J(m / T_ ** 2, False) for m, d in zip(keep[1], keep[3]))) for T_ in seq]
+        except Exception as ex:  # noqa: BLE001
+            rep.count("spectrum-reuse run raised " + type(ex).__name__)
+            continue
+        finally:
+            for f_ in (DI.Jb, DI.Jf):
+                f_.setExtrapolationType(extrapolationTypeLower=EExtrapolationType.NONE, extrapolationTypeUpper=EExtrapolationType.NONE)
+        rep.case(key=("spectrum-reuse", label))
+        rep.count("spectrum arrays reused over a temperature scan")
+        changed = not (np.array_equal(mB_, keep[0]) and np.array_equal(mF_, keep[1]) and np.array_equal(dB_, keep[2]) and np.array_equal(dF_, keep[3]))
+        tol_ = 2e-6 if label == "Integrals()" else 2e-3      # the shipped tables carry the known branch-point resolution (C20-Z) near x = 0
+        off_ = max(abs(g - w_) / abs(w_) for g, w_ in zip(got, want))
+        if changed or abs(got[0] - got[-1]) > 1e-12 * abs(got[0]) or off_ > tol_:
+            rep.violation("a spectrum array supplied by the caller is modified by potentialOneLoopThermal, or the value at a temperature depends on "
+                          "the temperatures evaluated before with the same arrays",
+                          {"integrals": label, "temperatures": seq, "values": got, "expected": want, "msqB_after": mB_.tolist(), "msqB_supplied": keep[0].tolist(),
+                           "msqF_after": mF_.tolist(), "msqF_supplied": keep[1].tolist()}, finding_key="C20:spectrum-aliasing")
     # ERROR option refuses negative mass squared instead of silently dropping the imaginary part
     pe = _potential(integrals=Integrals(), option=EImaginaryOption.ERROR)
     try:
